@@ -1,13 +1,15 @@
 #!/bin/bash
 # No-false-alarm sweep: every quick check under many VERIF_SEED values on the unchanged tree.
 # Evidence/out go to a scratch directory so that committed evidence is never touched.
-# usage: seedsweep.sh <first_seed> <last_seed>
+# usage: seedsweep.sh <first_seed> <last_seed> [checks...]   (default: all 13)
 cd "$(dirname "$0")/.."
 S=$(mktemp -d /tmp/gcmpy_sweep_XXXXXX)
 export VERIF_EVIDENCE_DIR=$S/evidence VERIF_OUT_DIR=$S/out
 bad=0; n=0
-for seed in $(seq ${1:-2} ${2:-9}); do
-  for c in C01 C02 C03 C05 C09 C10 C11 C12 C13 C15 C17 C18 C20; do
+FIRST=${1:-2}; LAST=${2:-9}; shift 2 2>/dev/null
+CHECKS=${@:-C01 C02 C03 C05 C09 C10 C11 C12 C13 C15 C17 C18 C20}
+for seed in $(seq $FIRST $LAST); do
+  for c in $CHECKS; do
     out=$(VERIF_SEED=$seed timeout 900 /venv/bin/python -m sim.check $c --tier quick 2>&1); rc=$?
     n=$((n+1))
     if [ $rc -ne 0 ] || echo "$out" | grep -q '^VIOLATION'; then
